@@ -204,8 +204,20 @@ func (a *aclRecordBuilder) BuildBatchRequest(payload BatchRequestPayload) (batch
 			return batchResult, ErrReadKeyChangeNotAlone
 		}
 	}
+	// revokes go first: a rotation in the same record (a removal below, or ReadKeyChange) must not
+	// encrypt the new key to an invite that this record retires, and the validator only accepts that
+	// once the invite is gone from the state
+	revokedInvites := make(map[string]struct{}, len(payload.InviteRevokes))
+	for _, id := range payload.InviteRevokes {
+		content, err = a.buildInviteRevoke(id)
+		if err != nil {
+			return
+		}
+		contentList = append(contentList, content)
+		revokedInvites[id] = struct{}{}
+	}
 	if len(payload.Removals.Identities) > 0 {
-		content, err = a.buildAccountRemove(payload.Removals)
+		content, err = a.buildAccountRemove(payload.Removals, revokedInvites)
 		if err != nil {
 			return
 		}
@@ -249,23 +261,12 @@ func (a *aclRecordBuilder) BuildBatchRequest(payload BatchRequestPayload) (batch
 		}
 		contentList = append(contentList, content)
 	}
-	for _, id := range payload.InviteRevokes {
-		content, err = a.buildInviteRevoke(id)
-		if err != nil {
-			return
-		}
-		contentList = append(contentList, content)
-	}
 	if payload.ReadKeyChange != nil {
 		// emitted after the revokes so that, when the record is applied in order, the invites are already
 		// gone from the state by the time the rotation lands — which is what lets the new key legitimately
 		// omit them and still validate.
-		revoked := make(map[string]struct{}, len(payload.InviteRevokes))
-		for _, id := range payload.InviteRevokes {
-			revoked[id] = struct{}{}
-		}
 		var rkChange *aclrecordproto.AclReadKeyChange
-		rkChange, err = a.buildReadKeyChange(*payload.ReadKeyChange, nil, revoked)
+		rkChange, err = a.buildReadKeyChange(*payload.ReadKeyChange, nil, revokedInvites)
 		if err != nil {
 			return
 		}
@@ -919,14 +920,14 @@ func (a *aclRecordBuilder) buildReadKeyChange(payload ReadKeyChangePayload, remo
 }
 
 func (a *aclRecordBuilder) BuildAccountRemove(payload AccountRemovePayload) (rawRecord *consensusproto.RawRecord, err error) {
-	content, err := a.buildAccountRemove(payload)
+	content, err := a.buildAccountRemove(payload, nil)
 	if err != nil {
 		return
 	}
 	return a.buildRecord(content)
 }
 
-func (a *aclRecordBuilder) buildAccountRemove(payload AccountRemovePayload) (value *aclrecordproto.AclContentValue, err error) {
+func (a *aclRecordBuilder) buildAccountRemove(payload AccountRemovePayload, revokedInvites map[string]struct{}) (value *aclrecordproto.AclContentValue, err error) {
 	deletedMap := map[string]struct{}{}
 	for _, key := range payload.Identities {
 		permissions := a.state.Permissions(key)
@@ -950,7 +951,7 @@ func (a *aclRecordBuilder) buildAccountRemove(payload AccountRemovePayload) (val
 		}
 		marshalledIdentities = append(marshalledIdentities, protoIdentity)
 	}
-	rkChange, err := a.buildReadKeyChange(payload.Change, deletedMap, nil)
+	rkChange, err := a.buildReadKeyChange(payload.Change, deletedMap, revokedInvites)
 	if err != nil {
 		return nil, err
 	}
